@@ -3,8 +3,8 @@
 Engine A: every tree of the C-expressible fragment (integer part and floating part) is mapped by
 CCodeMapper, wrapped into a C function together with its hoisted CSE assignments, compiled with
 gcc and run on every in-range environment of the box; oracle = vf.refsem.
-Engine B: all histories (up to a depth bound) of {map expression i, copy(),
-copy_with_mapped_cses()} on one CCodeMapper; after every transition the name list is checked
+Engine B: all histories (up to a depth bound) of {map expression i on mapper 0 or on its copy,
+copy(), copy_with_mapped_cses()} -- the original stays in use next to its copy; after every transition the name list is checked
 (unique names, assigned before use, one assignment per distinct wrapped child), and the programs of
 all maximal histories are compiled and run.
 """
@@ -25,6 +25,7 @@ FLT_BOX = (0.5, 1.0, 2.5, 4.0)
 LIMIT = 2 ** 40
 BATCH = 80
 HIST_DEPTH = {"quick": 3, "thorough": 4}
+COMPILE_DEPTH = 3       # the programs of all histories of this length are compiled and run
 
 POWK = [Ctor(f"Pow{k}", "Power", ("e",), lambda ch, k=k: ("Power", ch[0], C(k))) for k in range(4)]
 ABS = Ctor("Abs", "Call", ("e",), lambda ch: ("Call", V("abs"), T(ch[0])))
@@ -330,7 +331,9 @@ POOL = [
     ("Sum", T(CSE(("Sum", T(X, C(2)))), CSE(("Sum", T(X, C(2)))))),
     ("Sum", T(CSE(("Sum", T(Z, C(5)))), CSE(("Product", T(Y, C(2))), "p"))),
 ]
-OPS = [("map", i) for i in range(len(POOL))] + [("copy",), ("copy_mapped",)]
+N_MAPPERS = 2
+OPS = ([("map", m, i) for m in range(N_MAPPERS) for i in range(len(POOL))]
+       + [("copy", 0), ("copy_mapped", 0)])
 EXT = ("_cse_ext", "42")
 _IDENT = re.compile(r"[A-Za-z_][A-Za-z_0-9]*")
 
@@ -340,57 +343,69 @@ def wrapped_children(spec):
 
 
 def run_history(hist):
-    """Replay *hist* on a fresh CCodeMapper.  -> (violation or None, outputs, final name list)
+    """Replay *hist* on fresh CCodeMappers.  Mapper 0 exists from the start; ("copy", 0) and
+    ("copy_mapped", 0) make (or replace) mapper 1 as a copy of mapper 0; both stay in use.
+    -> (violation or None, outputs, state)
 
     outputs: [(pool index, returned text, name list snapshot)] for the map operations."""
     from pymbolic.mapper.c_code import CCodeMapper
     from pymbolic.mapper.stringifier import PREC_NONE
-    m = CCodeMapper()
-    seen_children = set()
+    mappers = [CCodeMapper(), None]
+    seen = [set(), None]            # distinct wrapped children mapped in each mapper's lineage
     ext = 0
     outputs = []
     for step, op in enumerate(hist):
         if op[0] == "map":
-            spec = POOL[op[1]]
-            text = m(build(spec), PREC_NONE)
-            seen_children |= wrapped_children(spec)
-            outputs.append((op[1], text, list(m.cse_name_list)))
+            mi = op[1]
+            if mappers[mi] is None:
+                return ("invalid", step, "mapper does not exist yet"), outputs, None
+            spec = POOL[op[2]]
+            text = mappers[mi](build(spec), PREC_NONE)
+            seen[mi] |= wrapped_children(spec)
+            outputs.append((op[2], text, list(mappers[mi].cse_name_list)))
+            last_text = text
         elif op[0] == "copy":
-            m = m.copy()
+            mappers[1] = mappers[0].copy()
+            seen[1] = set(seen[0])
         else:
-            m = m.copy_with_mapped_cses([(f"{EXT[0]}{ext}", EXT[1])])
+            mappers[1] = mappers[0].copy_with_mapped_cses([(f"{EXT[0]}{ext}", EXT[1])])
+            seen[1] = set(seen[0])
             ext += 1
-        names = [n for n, _ in m.cse_name_list]
-        # extra entries injected by copy_with_mapped_cses are the caller's: drop exact repeats
-        own = [(n, t) for n, t in m.cse_name_list if not n.startswith(EXT[0])]
-        own_names = [n for n, _ in own]
-        if len(set(own_names)) != len(own_names):
-            dup = sorted({n for n in own_names if own_names.count(n) > 1})
-            return (("duplicate-name", step,
-                     f"names {dup} assigned more than once: {m.cse_name_list}"), outputs, m)
-        assigned = set()
-        for n, t in m.cse_name_list:
-            for ident in _IDENT.findall(t):
-                if ident.startswith("_cse") and ident not in assigned:
-                    return (("use-before-assignment", step,
-                             f"{ident} used in '{n} = {t}' before its assignment: "
-                             f"{m.cse_name_list}"), outputs, m)
-            assigned.add(n)
-        if op[0] == "map":
-            for ident in _IDENT.findall(outputs[-1][1]):
-                if ident.startswith("_cse") and ident not in set(names):
-                    return (("unassigned-name", step,
-                             f"{ident} in returned text '{outputs[-1][1]}' is never assigned"),
-                            outputs, m)
-        if len(own) != len(seen_children):
-            return (("assignment-count", step,
-                     f"{len(seen_children)} distinct wrapped children mapped so far but "
-                     f"{len(own)} assignments: {m.cse_name_list}"), outputs, m)
-    return None, outputs, m
+        for mi, m in enumerate(mappers):
+            if m is None:
+                continue
+            names = [n for n, _ in m.cse_name_list]
+            own = [(n, t) for n, t in m.cse_name_list if not n.startswith(EXT[0])]
+            own_names = [n for n, _ in own]
+            if len(set(own_names)) != len(own_names):
+                dup = sorted({n for n in own_names if own_names.count(n) > 1})
+                return (("duplicate-name", step,
+                         f"mapper {mi}: names {dup} assigned more than once: {m.cse_name_list}"),
+                        outputs, m)
+            assigned = set()
+            for n, t in m.cse_name_list:
+                for ident in _IDENT.findall(t):
+                    if ident.startswith("_cse") and ident not in assigned:
+                        return (("use-before-assignment", step,
+                                 f"mapper {mi}: {ident} used in '{n} = {t}' before its "
+                                 f"assignment: {m.cse_name_list}"), outputs, m)
+                assigned.add(n)
+            if op[0] == "map" and op[1] == mi:
+                for ident in _IDENT.findall(last_text):
+                    if ident.startswith("_cse") and ident not in set(names):
+                        return (("unassigned-name", step,
+                                 f"mapper {mi}: {ident} in returned text '{last_text}' is never "
+                                 "assigned"), outputs, m)
+            if len(own) != len(seen[mi]):
+                return (("assignment-count", step,
+                         f"mapper {mi}: {len(seen[mi])} distinct wrapped children mapped so far "
+                         f"but {len(own)} assignments: {m.cse_name_list}"), outputs, m)
+    state = tuple(tuple(m.cse_name_list) if m is not None else None for m in mappers)
+    return None, outputs, state
 
 
 def show_hist(hist):
-    return ",".join(op[0] + (str(op[1]) if len(op) > 1 else "") for op in hist)
+    return ",".join(op[0] + "".join(f".{x}" for x in op[1:]) for op in hist)
 
 # }}}
 
@@ -405,8 +420,9 @@ class C14(Check):
             "floating fragment (quotient, powers, non-integer constants) -- each compiled by gcc "
             "and run on every in-range environment of {0,1,2,3,5}^vars ({0.5,1,2.5,4}^vars). "
             "Engine B: every history up to the depth bound over {map one of 8 expressions with "
-            "shared/fresh/nested/prefixed wrappers, copy(), copy_with_mapped_cses()}; invariants "
-            "after every transition, programs of maximal histories compiled and run. Non-trivial = "
+            "shared/fresh/nested/prefixed wrappers on the original mapper or on its copy, copy(), "
+            "copy_with_mapped_cses()}; invariants of BOTH mappers after every transition, programs "
+            "of all histories of length 3 compiled and run. Non-trivial = "
             "at least one in-range environment; distinct = distinct trees / histories.")
     assumptions = [
         "environments are restricted to the range the statement names: non-negative operands of "
@@ -440,12 +456,30 @@ class C14(Check):
             ("flt-depth2", lambda: batches("f", gen.depth2(FLT_CTORS, fleaves, FFILL))),
             ("flt-nest2", lambda: batches("f", (s for _, s in
                                                 gen.nest2(FLT_CTORS, FLT_CTORS, FFILL)))),
+            ("int-negsums", lambda: batches("i", self.gen_negsums())),
             ("histories", lambda: (("h", (op,)) for op in OPS)),
         ]
         if tier == "thorough":
             fams.append(("int-nest3", lambda: batches("i", (
                 s for _, s in gen.nest3(INT_REDUCED, INT_REDUCED, INT_REDUCED, FILL)))))
         return fams
+
+    def gen_negsums(self):
+        """Sums whose terms are (partly or all) products with a leading -1 -- the printer turns
+        them into subtractions -- under every parent and position."""
+        neg = [("Product", T(C(-1), X)), ("Product", T(C(-1), Y, Z)),
+               ("Product", T(C(-1), ("Sum", T(X, C(2)))))]
+        terms = [*neg, X, C(3)]
+        sums = [("Sum", T(a, b)) for a in terms for b in terms
+                if (a in neg or b in neg)]
+        sums += [("Sum", T(neg[0], neg[1], neg[0])), ("Sum", T(X, neg[0], neg[1]))]
+        for s in sums:
+            yield s
+            for pc in INT_CTORS:
+                for pos in range(len(pc.slots)):
+                    ch = gen.fill_slots(pc, FILL, 1)
+                    ch[pos] = s
+                    yield pc(*ch)
 
     def check_item(self, family, item, tier):
         r = Res()
@@ -480,9 +514,11 @@ class C14(Check):
             nxt = []
             for hist in frontier:
                 viol, outputs, m = run_history(hist)
+                if viol is not None and viol[0] == "invalid":
+                    continue
                 r.count("transitions")
                 r.count("histories")
-                states.add(tuple(m.cse_name_list) if not isinstance(m, tuple) else m)
+                states.add(m if isinstance(m, tuple) else repr(m))
                 if viol is not None:
                     kind, step, detail = viol
                     r.fail(kind, f"{kind}|{show_hist(hist[:step + 1])}",
@@ -491,7 +527,7 @@ class C14(Check):
                 r.keys.append(("h", hist))
                 if len(hist) < depth:
                     nxt.extend(hist + (op,) for op in OPS)
-                else:
+                if len(hist) == min(depth, COMPILE_DEPTH):
                     maximal.append((hist, outputs))
             frontier = nxt
         r.count("states", len(states))
